@@ -40,6 +40,8 @@ func main() {
 			"(before the connection's write lock); meanwhile a second change of the same characteristic (2 of 3 scenarios) or of another one is made by the application or another controller and runs to completion; then the first " +
 			"fan-out continues. Per subscribed connection: one EVENT per foreign change (counted; overlap:event:missing / surplus), values among those written, the final value notified to everybody but its writer " +
 			"(overlap:final-value-never-notified), nothing for the unsubscribed connection",
+		"stalled_subscriber": "2 / 12 scenarios: one of two subscribers stops reading, the application sets 14 values of 1 MiB (the set blocks on the full socket), 90 s of virtual time pass (armed deadlines moved into the past), the subscriber reads again: " +
+			"both subscribers must find every EVENT, well-formed and in order (stalled-subscriber:stream-broken / event:missing)",
 		"concurrent_variant": "3..5 stable connections subscribed to every written characteristic, 2..5 remote writers + 2..4 application goroutines on DISTINCT characteristics with unique values (20..59 changes each), " +
 			"1 connection toggling a subscription on a characteristic nobody changes, 3 goroutines opening short-lived connections that subscribe to everything and close (FIN/RST) during the fan-out; final fence; " +
 			"offline: each stable connection has every foreign change exactly once, none of its own, nothing else; short-lived connections: only real changes, at most once; a panic of the fan-out is a violation (notify:panic:<site>); " +
@@ -81,6 +83,9 @@ func main() {
 	// ---- overlapping changes (overlap.go): serial, the hold point is a global hook
 	nOv := r.Pick(24, 300)
 	overlapScenarios(r, nOv)
+
+	// ---- a subscriber that stops reading while values change (stalled.go)
+	stalledSubscribers(r)
 
 	// ---- concurrent variant: plain build in this process, then the same workload under the race detector
 	nc := r.Pick(6, 60)
